@@ -23,7 +23,7 @@ Definition ppcheck (c : ppcase) : bool :=
     let cfg := mkCfg ft fp cs ss in
     let s0 := mkTs (set_thread_map tm ([], [])) [] in
     let out := pipeline dom dec tstate (cstep (kind_of kinds) (words_of ins)) cproc_ok cfg s0 (mk_pevs 0 ins) in
-    let summ := flat_map (fun x : tr * tstate => match snd (fst x) with
+    let summ := flat_map (fun x : tr * (tstate * tstate) => match snd (fst x) with
                                                  | h :: r => [(p_uid h, p_uid (last r h))]
                                                  | [] => [] end) out in
     list_eqb (fun a b => N.eqb (fst a) (fst b) && N.eqb (snd a) (snd b)) summ obs
